@@ -607,6 +607,7 @@ type Layout struct {
 	Blank       []int `json:"blank,omitempty"`        // cyclic: number of blank lines inserted after line i (fasta: any line; fastq: after each record)
 	Trail       []int `json:"trail,omitempty"`        // cyclic: trailing whitespace selector per line (0 none, 1 ' ', 2 '\t', 3 "  \t")
 	BlankIsSpcs bool  `json:"blank_spaces,omitempty"` // blank lines consist of blanks rather than being empty
+	Lead        int   `json:"lead,omitempty"`         // fasta: blank lines in front of the first header
 }
 
 var trailers = []string{"", " ", "\t", "  \t "}
@@ -679,6 +680,12 @@ func (f SeqFile) Render(l Layout) []byte {
 	if l.BlankIsSpcs {
 		blank = " \t"
 	}
+	if f.Format == "fasta" && len(lines) > 0 {
+		for j := 0; j < l.Lead; j++ {
+			b.WriteString(blank)
+			b.WriteString(eol)
+		}
+	}
 	for i, s := range lines {
 		b.WriteString(s)
 		last := i == len(lines)-1
@@ -733,6 +740,7 @@ func GenLayout(t *rapid.T, format string, allowLong bool) Layout {
 			l.Blank = append(l.Blank, rapid.SampledFrom([]int{0, 0, 1, 2}).Draw(t, "blank"))
 		}
 		l.BlankIsSpcs = rapid.Bool().Draw(t, "blank-spaces")
+		l.Lead = rapid.SampledFrom([]int{0, 0, 1, 2}).Draw(t, "leading-blank-lines")
 	}
 	if rapid.Bool().Draw(t, "trailing") {
 		n := rapid.IntRange(1, 5).Draw(t, "ntrail")
